@@ -58,6 +58,8 @@ class C17(SmallSuite):
     def gen_plan(self, rng, tier, run_seed):
         N = rng.choice([1, 1, 2, 2, 3, 4, 5])
         m = rng.randint(1, min(20, 50 // N)) if rng.random() < 0.7 else rng.choice([10, 50 // N])
+        if N >= 2 and rng.random() < 0.06:
+            m = rng.randint(50 // N + 1, 64 // N)     # finer than a double can resolve: the image saturates, purity must not
         lower, upper = objectives.gen_box(rng, N)
         ctor_type = None
         if rng.random() < 0.12:
@@ -116,7 +118,11 @@ class C17(SmallSuite):
                 box = (lo, hi)
                 ops.append({"op": "setbounds", "lower": lo, "upper": hi})
                 n_bounds += 1
-            elif u < 0.878 and N >= 1:
+            elif u < 0.8715 and n_ret:
+                # a long series of images in a row (a solver's whole run on this object): arrays handed out before it stay
+                # what they were
+                ops.append({"op": "image_series", "n": rng.randint(1030, 2300)})
+            elif u < 0.879 and N >= 1:
                 ops.append({"op": "sibling", "m": rng.choice([d for d in range(1, min(20, 50 // N) + 1) if d != m] or [m])})
             elif u < 0.885:
                 # a SetBounds whose upper argument is malformed (too few components / a scalar / 2-D) while the lower one is a
@@ -231,6 +237,11 @@ class C17(SmallSuite):
                     events.append("setbounds")
                     if q_before_bounds:
                         bounds_between = True
+                elif k == "image_series":
+                    for j in range(int(op["n"])):
+                        ev.GetImage((j * 0.6180339887498949) % 1.0)
+                    rep.probes["image_series_calls"] += int(op["n"])
+                    events.append("image_series %d" % op["n"])
                 elif k == "sibling":
                     # another Evolvent (other density, same dimension) is constructed and kept alive next to this one
                     siblings.append(Evolvent(np.array(cur[0]), np.array(cur[1]), N, int(op["m"])))
